@@ -236,6 +236,11 @@ class MessageSigner(object):
         r = from_bytes_32(sig[1:33])
         s = from_bytes_32(sig[33 : 33 + 32])
 
+        # as in ECDSA verification, r and s must be in [1, order - 1]
+        order = self._generator.order()
+        if not (1 <= r < order and 1 <= s < order):
+            raise EncodingError("r or s out of range")
+
         # first byte encodes a bits we need to know about the point used in signature
         if not (27 <= first < 35):
             raise EncodingError("First byte out of range")
